@@ -566,7 +566,7 @@ func partial(s []gen.SigSpec) bool {
 }
 
 const envRule = "1-3 well-formed envelopes of all 17 message types (generated by gen.GenEnv: states with 1-4 assets, 1-5 participants, up to 3 locked entries with nil/empty/valid/arbitrary index maps, any app, partial signature sets, wire address maps with 0-3 entries) encoded back to back plus a tail of foreign bytes; oracle: each decodes from the stream, consumes exactly its own bytes, converts back to the generating spec (independent value comparison, nil==empty), re-encodes to identical bytes (native), and the protobuf round trip yields the same spec (serializer agreement); non-trivial = a message with a locked entry, index map, >2 participants, >1 asset, app data, partial signatures or a multi-entry address map"
-const valRule = "one well-formed value of {state, allocation, balances, sub-allocation, params, transaction, sparse signatures, wire/wallet address map and map array, big integer, string, each message type} plus a tail; oracle: decode(encode(v) || tail) leaves exactly the tail, equals v (type Equal where it exists, and by conversion back to the generating spec), and re-encodes to the same bytes; non-trivial as for envelopes"
+const valRule = "one well-formed value of {state, allocation, balances, sub-allocation, params, transaction, sparse signatures, wire/wallet address map and map array, big integer, string, each message type} plus a tail; oracle: decode(encode(v) || tail) leaves exactly the tail, equals v (type Equal where it exists, and by conversion back to the generating spec), and re-encodes to the same bytes; Kind atlimit: allocations with exactly, and one below, the documented maximum (1024) of assets, participants or locked entries. non-trivial as for envelopes"
 
 var assumptions = []string{
 	"well-formed values only: wallet address maps use the one registered backend (id 0); signatures are 64 byte strings as the sim backend produces them",
